@@ -446,6 +446,15 @@ func scenarios(tier string) []scenario {
 	}
 	// larger sizes (bufio 4096 and io.Copy 32 KiB boundaries), fewer shapes
 	big := [][]int{{4097}, {5000, 3}, {32769}}
+	// both directions carry chunks larger than a bufio buffer at the same time (writes go straight to the sockets)
+	for _, in := range []string{"client", "target"} {
+		for _, mode := range []string{"full", "half"} {
+			if tier == "quick" && mode == "full" {
+				continue
+			}
+			out = append(out, scenario{Head: 0, CChunks: []int{4097, 4200}, TChunks: []int{4500, 4100}, Initiator: in, Mode: mode})
+		}
+	}
 	if tier == "thorough" {
 		big = append(big, []int{1 << 20})
 	}
@@ -564,8 +573,8 @@ func main() {
 					big = true
 				}
 			}
-			if big {
-				b--
+			if big && tier == "thorough" {
+				b-- // 1 MiB scenarios are long
 			}
 			body, check := run(sc)
 			seen := map[string]bool{}
